@@ -330,7 +330,14 @@ func (w *world) readState() (map[string]map[string]*colInfo, string, string) {
 				}
 				dec := json.NewDecoder(bytes.NewReader(r.body))
 				if err := dec.Decode(&sr); err != nil {
-					return nil, "", "digest search: " + err.Error()
+					// a 200 whose JSON this process cannot read (a stored point nested deeper than encoding/json's
+					// 10000 levels, put there through MessagePack): not a failure of the server; the
+					// collection is dropped at the next iteration
+					unreadable = true
+					if w.broken[key] == "" {
+						w.broken[key] = "harness cannot decode: " + err.Error()
+					}
+					break
 				}
 				for _, p := range sr.Points {
 					pid, _ := p["_id"].(string)
@@ -421,6 +428,11 @@ func decodeInto[T any](ctype string, body []byte) (v T, ok bool, perr string) {
 			return v, false, ""
 		}
 	case "application/msgpack":
+		// like DecodeValid: skip over the value first (also keeps THIS process from allocating
+		// for a forged array header)
+		if err := msgpack.NewDecoder(bytes.NewReader(body)).Skip(); err != nil {
+			return v, false, ""
+		}
 		dec := msgpack.NewDecoder(bytes.NewReader(body))
 		dec.SetCustomStructTag("json")
 		if err := dec.Decode(&v); err != nil {
@@ -660,6 +672,12 @@ func doReplay(path string) {
 			body = body[:160] + "..."
 		}
 		fmt.Printf("status=%d %s\n", resp.status, strings.TrimSpace(body))
+		if resp.status >= 500 && os.Getenv("C18_SERVER_LOG") != "" {
+			l := c.log.String()
+			if i := strings.LastIndex(l, "panic recovered"); i >= 0 {
+				fmt.Fprintln(os.Stderr, l[max(0, i-200):min(len(l), i+3000)])
+			}
+		}
 	}
 }
 
@@ -945,7 +963,7 @@ func (rn *runner) judge(req request, ep, ctype, mutKind, mutPath, key, hline str
 			return -1
 		}
 		// no answer although the process lives: a hang or a closed connection
-		rn.fail(fmt.Sprintf("no-response:%s", ep), fmt.Sprintf("no HTTP answer for %s %s: %v", req.method, req.path, resp.err), rn.replayFor(key, req, hline))
+		rn.fail(fmt.Sprintf("no-response:%s%s", hugeHeader(req), ep), fmt.Sprintf("no HTTP answer for %s %s: %v", req.method, req.path, resp.err), rn.replayFor(key, req, hline))
 		rn.statusCt["no-response"]++
 		rn.restart()
 		return -1
@@ -997,6 +1015,19 @@ func (rn *runner) judge(req request, ep, ctype, mutKind, mutPath, key, hline str
 		fmt.Fprintf(rn.replays, "%d\t%s\n", rn.o.N, strings.Join(rn.replayFor(key, req, ""), "\x1f"))
 	}
 	return st
+}
+
+// a MessagePack body with an array32 / map32 header announcing more than 10^7 elements
+func hugeHeader(r request) string {
+	if r.ctype != "application/msgpack" {
+		return ""
+	}
+	for i := 0; i+4 < len(r.body); i++ {
+		if (r.body[i] == 0xdd || r.body[i] == 0xdf) && (uint32(r.body[i+1])<<24|uint32(r.body[i+2])<<16|uint32(r.body[i+3])<<8|uint32(r.body[i+4])) > 10000000 {
+			return "msgpack-huge-length-header:"
+		}
+	}
+	return ""
 }
 
 func errClass(msg string) string {
@@ -1276,28 +1307,29 @@ func (rn *runner) iteration(i int) {
 	}
 	path += ep.suffix
 	req := request{user, plan, ep.method, path, sentCtype, raw}
-	// ---- header / routing mutations: not modelled, O4 only
-	if g.r.Chance(3) {
-		switch g.r.Intn(5) {
+	// ---- header mutations (modelled: the header middleware answers 400 before anything else)
+	if g.r.Chance(4) {
+		switch g.r.Intn(3) {
 		case 0:
-			req.user = ""
+			req.user = vh.Pick(g.r, []string{"", ".", "..", "a/b", "a\\b", "/", "\\", "alice/..", "../alice", "alice/base1", "./alice"})
 		case 1:
-			req.plan = ""
-		case 2:
-			req.plan = "NOSUCHPLAN"
-		case 3:
+			req.plan = vh.Pick(g.r, []string{"", "NOSUCHPLAN", "basic", "."})
+		default:
+			req.user, req.plan = vh.Pick(g.r, []string{"", "..", "a/b"}), vh.Pick(g.r, []string{"", "NOSUCHPLAN"})
+		}
+		mutKind = strings.TrimPrefix(mutKind+"+header", "+")
+	}
+	// ---- routing mutations: not modelled, O4 only
+	if g.r.Chance(2) {
+		switch g.r.Intn(2) {
+		case 0:
 			req.method = vh.Pick(g.r, []string{"PATCH", "HEAD", "OPTIONS", "PUT", "GET", "DELETE", "POST"})
 		default:
 			req.path = vh.Pick(g.r, []string{"/v3/collections", "/", "/v2", "/v2/collections/" + cid + "/points/search/extra", "/v2/collection", "/v1/collections/" + cid + "/point", "/v2/collections/" + cid + "/points?x=1", "/metrics", "/v2/ping/x"})
 		}
-		st := rn.judge(req, epName, sentCtype, "header-or-route", "", key, "")
+		st := rn.judge(req, epName, sentCtype, "route", "", key, "")
 		if st >= 200 && st < 300 {
-			known200 := (req.method == ep.method && req.path == path) || req.method == "HEAD" || strings.Contains(req.path, "?x=1") ||
-				(req.user != "" && req.plan != "" && req.plan != "NOSUCHPLAN" && st == 200)
-			if req.user == "" || req.plan == "" || req.plan == "NOSUCHPLAN" {
-				known200 = false
-			}
-			if !known200 {
+			if !headersValid(req.user, req.plan) {
 				rn.fail("accepted-without-headers:"+epName, "a request without valid X-User-Id / X-Plan-Id headers was answered 2xx", []string{req.line()})
 			}
 			rn.refresh()
@@ -1333,8 +1365,8 @@ func (rn *runner) iteration(i int) {
 				}
 			}
 		}
-		hline = fmt.Sprintf("h %s plan=%d,%d,%d ncols=%d exists=%d cid=%d found=%d count=%d ; %s ; %s",
-			epName, pn[0], pn[1], pn[2], len(rn.w.cols[user]), exists, len(cid), found, count, schemaT, tokens)
+		hline = fmt.Sprintf("h %s plan=%d,%d,%d ncols=%d exists=%d cid=%d found=%d count=%d%s ; %s ; %s",
+			epName, pn[0], pn[1], pn[2], len(rn.w.cols[user]), exists, len(cid), found, count, hdrArgs(req.user, req.plan), schemaT, tokens)
 	}
 	// the property judges valid requests only while distances stay finite: a write that puts
 	// non-finite / astronomically large numbers into an INDEXED VECTOR taints the collection (5xx
@@ -1364,6 +1396,18 @@ func (rn *runner) iteration(i int) {
 }
 
 type resp200 struct{}
+
+// the headers as the model sees them
+func hdrArgs(user, plan string) string {
+	_, ok := userPlans[plan]
+	return fmt.Sprintf(" user=%s planid=%s planok=%s", strTok(user), strTok(plan), vh.B01(ok))
+}
+
+// the harness' own statement of the documented header rule (used for the unmodelled route mutations)
+func headersValid(user, plan string) bool {
+	_, ok := userPlans[plan]
+	return ok && user != "" && user != "." && user != ".." && !strings.ContainsAny(user, "/\\")
+}
 
 func isBase(id string) bool {
 	for _, c := range baseCols {
